@@ -9,6 +9,8 @@ from . import core, xmlblock as xb
 
 
 def run(ctx):
+    from . import c08
+    c08.refresh_facts(ctx)      # leaf switches -> Generated/Facts08.lean (Props import Facts08Good)
     xb.t1(ctx)
     ctx.prove()
     xb.part_c01(ctx)
